@@ -1,6 +1,6 @@
 CONSTANTS
-  B = 9
-  M = 21
+  B = 8
+  M = 17
 INIT Init
 NEXT Next
 INVARIANTS GcdLaws InverseLaws DivLaws PowLaws JacobiLaws QRCount CRTLaws SqrtLaws BitLaws RatLaws SymLaws WindowLaws
